@@ -421,7 +421,7 @@ func (fr *Frame) nilGoal(v ssa.Value, t Term) Term {
 	default:
 		return "true"
 	}
-	if fr.trustedNonNil(v) {
+	if fr.trustedNonNil(v) || vc.trusted[t] {
 		return "true"
 	}
 	if p, ok := fr.vc.prov[t]; ok {
@@ -610,6 +610,12 @@ func (fr *Frame) valueInstr(st *State, v ssa.Value) {
 		for i := 0; i < tup.Len(); i++ {
 			ts = append(ts, vc.sc.Fresh(fr.prefix+"sel", vc.sortOf(tup.At(i).Type())))
 		}
+		// the chosen case index is one of the cases (or -1 when a default exists)
+		lo := "0"
+		if !x.Blocking {
+			lo = "(- 1)"
+		}
+		vc.sc.Assume(st.reach, And(sx("<=", lo, ts[0]), sx("<", ts[0], IntLit(int64(len(x.States))))))
 		fr.tuples[x] = ts
 	case *ssa.Range:
 		fr.vals[x] = fr.val(x.X)
@@ -685,6 +691,7 @@ func (fr *Frame) unop(st *State, x *ssa.UnOp) {
 		et := x.Type()
 		if g, ok := x.X.(*ssa.Global); ok {
 			if t, ok := vc.stableGlobal(g); ok {
+				vc.trusted[t] = true
 				fr.define(x, t)
 				return
 			}
